@@ -5,7 +5,7 @@ from .. import common as C
 from .. import specrun as X
 
 LEVEL = "proof"
-N = {"quick": (30, 260), "thorough": (300, 3000)}
+N = {"quick": (30, 260), "thorough": (200, 1200)}
 
 
 def run_cases(chk, binp, cases, pf_ok, pf):
